@@ -42,7 +42,7 @@ def harnesses():
                          fns=["to_base_le", "to_base_be"], role="c09::digits"))
         for base in [2, 10, 2 ** 32, 2 ** 64 - 1]:
             nd = 3
-            quick = (b, base) in ((8, 10), (64, 2 ** 32), (65, 2 ** 64 - 1), (65, 10))
+            quick = (b, base) in ((8, 10), (8, 2 ** 32), (64, 2 ** 32), (65, 2 ** 64 - 1), (65, 10))   # incl. base >= 2^BITS
             out.append(H("c09_from_digits_%d_b%d" % (b, base), "C09",
                          "c09::from_digits::<%d,%d,%d,%d>" % (b, l, base, nd), unwind=max(nd + 3, l + 3, 7),
                          tier="quick" if quick else "thorough", timeout=2400, inst=inst,
